@@ -205,8 +205,10 @@ class ConservationMonitor:
             for e in range(nel):
                 if not relclose(out['fconc'][p, e], fc_ref[p, e], 1e-10, 1e-18 * max(1.0, abs(fc_ref[p, e]))):
                     F.add('C01.reference_balance', f'step {n}: recorded precipitate solute content fconc[{p},{e}] = {out["fconc"][p, e]!r}, reference {fc_ref[p, e]!r}', term='fconc')
+        # (x0 - sum fconc)/(1 - sum fv): dividing by a small remaining matrix fraction amplifies the rounding of the numerator and of sum fv
+        amp = 1.0 / max(1.0 - tot_fv, 1e-12) if tot_fv < 1 else 1.0
         for e in range(nel):
-            if not relclose(out['composition'][e], xm[e], 1e-10, 1e-16):
+            if not relclose(out['composition'][e], xm[e], 1e-10 * max(1.0, amp), 1e-16 * max(1.0, amp)):
                 F.add('C01.reference_balance', f'step {n}: recorded matrix composition[{e}] = {out["composition"][e]!r}, reference (x0 - sum fconc)/(1 - sum fv) = {xm[e]!r} (clamp active: {clamp})', term='composition')
         # ---- the identity itself (what the property states), on the recorded row
         if tot_fv < 1 and not clamp:
